@@ -15,7 +15,11 @@ Lemma ptype_eqb_eq a b : ptype_eqb a b = true <-> a = b.
 Proof. unfold ptype_eqb. destruct a, b; cbn; split; intros H; try reflexivity; try discriminate. Qed.
 
 Lemma mult_eqb_eq a b : mult_eqb a b = true -> a = b.
-Proof. destruct a, b; cbn; intros H; try reflexivity; discriminate. Qed.
+Proof.
+  destruct a, b; cbn; intros H; try reflexivity; try discriminate.
+  apply andb_prop in H as [H Ht]. apply andb_prop in H as [Hi Hc].
+  apply Nat.eqb_eq in Hi. apply String.eqb_eq in Hc. apply Z.eqb_eq in Ht. congruence.
+Qed.
 
 Lemma kind_eqb_eq a b : kind_eqb a b = true -> a = b.
 Proof.
@@ -42,9 +46,10 @@ Qed.
 
 Lemma by_eqb_eq a b : by_eqb a b = true -> a = b.
 Proof.
-  destruct a as [[i s t]|], b as [[j r u]|]; cbn; intros H; try discriminate; [|reflexivity].
+  destruct a as [[sa s t]|], b as [[sb r u]|]; cbn; intros H; try discriminate; [|reflexivity].
   apply andb_prop in H as [H Ht]. apply andb_prop in H as [Hi Hs].
-  apply Nat.eqb_eq in Hi. apply Bool.eqb_prop in Hs. apply table_eqb_eq in Ht. congruence.
+  apply Bool.eqb_prop in Hs. apply table_eqb_eq in Ht.
+  destruct sa as [i|], sb as [j|]; try discriminate; [apply Nat.eqb_eq in Hi|]; congruence.
 Qed.
 
 Lemma item_eqb_eq a b : item_eqb a b = true -> a = b.
@@ -88,49 +93,91 @@ Proof.
   rewrite be_dec_enc; [reflexivity|]. unfold tag_ok in Ht. rewrite p3. lia.
 Qed.
 
+(* every encoding starts with its three tag bytes followed by its type byte *)
 Lemma with_hdr_starts tag ty len body bs :
-  with_hdr tag ty len body = Some bs -> exists r, bs = be_enc 3 tag ++ r.
+  with_hdr tag ty len body = Some bs -> exists r, bs = be_enc 3 tag ++ ty :: r.
 Proof.
   intros H. apply with_hdr_some in H as (h & Hh & ->). unfold hdr in Hh.
   destruct ((0 <=? len) && (len <? TWO32)); [|discriminate].
   assert (h = be_enc 3 tag ++ ([ty] ++ be_enc 4 len)) by congruence; subst h.
-  rewrite <- app_assoc. eauto.
+  rewrite <- app_assoc. cbn [app]. eauto.
 Qed.
 
-Lemma enc_prim_starts tag p bs : enc_prim tag p = Some bs -> exists r, bs = be_enc 3 tag ++ r.
+Lemma enc_prim_starts tag p bs : enc_prim tag p = Some bs ->
+  exists r, bs = be_enc 3 tag ++ type_code (ptype_of p) :: r.
 Proof.
-  destruct p; cbn [enc_prim]; intros H;
+  destruct p; cbn [enc_prim ptype_of type_code]; intros H;
     repeat match type of H with (if ?c then _ else _) = _ => destruct c; [|discriminate] end;
     eapply with_hdr_starts; exact H.
 Qed.
 
 (* ---------------------------------------------------------------- dispatch *)
 
-Lemma resolve1_tag pre it it' : resolve1 pre it = RItem it' -> In (i_tag it') (tags_of_item it).
+Lemma resolve_k_item key b it it' : resolve_k key b it = RItem it' ->
+  In (i_tag it') (map (fun e => fst (snd e)) (by_table b)) /\ i_mult it' = i_mult it /\
+  exists q tag k, In (q, (tag, k)) (by_table b) /\ i_tag it' = tag /\ i_kind it' = k.
 Proof.
-  unfold resolve1, tags_of_item. destruct (i_by it) as [b|]; [|intros H; injection H as <-; left; reflexivity].
-  destruct (key_of pre (by_ix b)) as [p|]; [|destruct (by_skip_if_absent b); discriminate].
+  unfold resolve_k. destruct key as [p|]; [|destruct (by_skip_if_absent b); discriminate].
   destruct (find _ (by_table b)) as [[q [tag k]]|] eqn:Ef; [|discriminate].
-  intros H; injection H as <-. cbn [i_tag]. apply find_some in Ef as [Hin _].
+  intros H; injection H as <-. cbn [i_tag i_mult i_kind]. apply find_some in Ef as [Hin _].
+  split; [|split; [reflexivity|exists q, tag, k; auto]].
   apply (in_map (fun e => fst (snd e))) in Hin. exact Hin.
 Qed.
 
-Lemma resolve1_ok E pre it it' : item_ok E it = true -> resolve1 pre it = RItem it' ->
+Lemma resolve_w_tag pre it f it' : resolve_w pre it f = RItem it' -> In (i_tag it') (tags_of_item it).
+Proof.
+  unfold resolve_w, tags_of_item. destruct (i_by it) as [b|]; [|intros H; injection H as <-; left; reflexivity].
+  intros H. apply resolve_k_item in H. tauto.
+Qed.
+
+Lemma resolve_k_ok E key b it it' :
+  forallb (fun e => tag_ok (fst (snd e)) && kind_ok E (snd (snd e))) (by_table b) = true ->
+  resolve_k key b it = RItem it' -> tag_ok (i_tag it') = true /\ i_mult it' = i_mult it.
+Proof.
+  intros Hok H. apply resolve_k_item in H as (_ & Hm & q & tag & k & Hin & -> & _).
+  rewrite forallb_forall in Hok. specialize (Hok _ Hin). cbn in Hok. apply andb_prop in Hok as [Hok _]. auto.
+Qed.
+
+Lemma resolve_w_ok E pre it f it' : item_ok E it = true -> resolve_w pre it f = RItem it' ->
   tag_ok (i_tag it') = true /\ i_mult it' = i_mult it.
 Proof.
-  unfold resolve1, item_ok. destruct (i_by it) as [b|].
-  - destruct (key_of pre (by_ix b)) as [p|]; [|destruct (by_skip_if_absent b); discriminate].
-    destruct (find _ (by_table b)) as [[q [tag k]]|] eqn:Ef; [|discriminate].
-    intros Hok H; injection H as <-. cbn [i_tag i_mult]. apply find_some in Ef as [Hin _].
-    rewrite forallb_forall in Hok. specialize (Hok _ Hin). cbn in Hok. apply andb_prop in Hok as [Hok _]. auto.
+  unfold resolve_w, item_ok. destruct (i_by it) as [b|].
+  - intros Hok. apply andb_prop in Hok as [Hok _]. apply (resolve_k_ok E). exact Hok.
   - intros Hok H; injection H as <-. apply andb_prop in Hok as [Hok _]. auto.
 Qed.
+
+Lemma resolve_r_ok E pre it bs it' : item_ok E it = true -> resolve_r pre it bs = RItem it' ->
+  tag_ok (i_tag it') = true /\ i_mult it' = i_mult it.
+Proof.
+  unfold resolve_r, item_ok. destruct (i_by it) as [b|].
+  - intros Hok. apply andb_prop in Hok as [Hok _]. apply (resolve_k_ok E). exact Hok.
+  - intros Hok H; injection H as <-. apply andb_prop in Hok as [Hok _]. auto.
+Qed.
+
+(* a dispatched-on-the-next-type item is required and never silently skipped *)
+Lemma next_type_req E it b : item_ok E it = true -> i_by it = Some b -> by_src b = ByNextType ->
+  i_mult it = Req /\ by_skip_if_absent b = false.
+Proof.
+  unfold item_ok. intros Hok Hb Hs. rewrite Hb in Hok. apply andb_prop in Hok as [_ Hok]. rewrite Hs in Hok.
+  apply andb_prop in Hok as [Hr Hk]. split; [destruct (i_mult it); try discriminate; reflexivity|].
+  apply negb_true_iff in Hk. exact Hk.
+Qed.
+
+Lemma take4_tag_type tag ty r :
+  take_exact 4 (be_enc 3 tag ++ ty :: r) = Some (be_enc 3 tag ++ [ty], r).
+Proof.
+  replace (be_enc 3 tag ++ ty :: r) with ((be_enc 3 tag ++ [ty]) ++ r) by (rewrite <- app_assoc; reflexivity).
+  apply take_exact_app'. rewrite zlen_app, zlen_be_enc. reflexivity.
+Qed.
+
+Lemma nth3_tag_type tag ty : nth 3 (be_enc 3 tag ++ [ty]) 0 = ty.
+Proof. rewrite app_nth2; rewrite be_enc_length; [reflexivity|lia]. Qed.
 
 Section Generic.
 Variable E : env.
 Variable v : Z.
 
-Lemma wr_starts fuel tag k x bs : wr E v fuel tag k x = Some bs -> exists r, bs = be_enc 3 tag ++ r.
+Lemma wr_starts fuel tag k x bs : wr E v fuel tag k x = Some bs -> exists r, bs = be_enc 3 tag ++ tyc x :: r.
 Proof.
   destruct fuel as [|f]; [discriminate|]. cbn [wr].
   destruct k as [t|e|c]; destruct x as [p|fields]; try discriminate.
@@ -161,7 +208,7 @@ Proof.
   - destruct fields; cbn in H; [injection H as <-; left; reflexivity|discriminate].
   - destruct fields as [|fs fields]; [cbn in H; discriminate|]. cbn [wr_items] in H.
     cbn [map List.concat].
-    destruct (resolve1 pre it) as [it'| |] eqn:Er; [| |discriminate].
+    destruct (resolve_w pre it fs) as [it'| |] eqn:Er; [| |discriminate].
     + destruct (enc_field wrf (it', fs)) as [b|] eqn:Eb; [|discriminate].
       destruct (wr_items wrf (pre ++ [fs]) items fields) as [r|] eqn:Ew; [|discriminate]. injection H as <-.
       unfold enc_field in Eb. cbn [fst snd] in Eb.
@@ -171,7 +218,7 @@ Proof.
       * cbn [app]. destruct (IH _ _ _ Hs Ew) as [->|(t & r' & Hin & ->)]; [left; reflexivity|].
         right. exists t, r'. split; [apply in_or_app; right; exact Hin|reflexivity].
       * right. exists (i_tag it'), (r' ++ r). split; [|rewrite app_assoc; reflexivity].
-        apply in_or_app; left. eapply resolve1_tag; exact Er.
+        apply in_or_app; left. eapply resolve_w_tag; exact Er.
     + destruct fs; [|discriminate].
       destruct (IH _ _ _ Hs H) as [->|(t & r' & Hin & ->)]; [left; reflexivity|].
       right. exists t, r'. split; [apply in_or_app; right; exact Hin|reflexivity].
@@ -186,7 +233,8 @@ Proof.
   cbn [map List.concat] in Hin. apply in_app_or in Hin as [Hj|Hr].
   - specialize (Hok j (or_introl eq_refl)). unfold item_ok, tags_of_item in *.
     destruct (i_by j) as [bj|].
-    + apply in_map_iff in Hj as (e & <- & He). rewrite forallb_forall in Hok.
+    + apply andb_prop in Hok as [Hok _].
+      apply in_map_iff in Hj as (e & <- & He). rewrite forallb_forall in Hok.
       specialize (Hok e He). apply andb_prop in Hok as [Hk _]. exact Hk.
     + destruct Hj as [<-|[]]. apply andb_prop in Hok as [Hk _]. exact Hk.
   - apply IHi; [intros; apply Hok; right; assumption|exact Hr].
@@ -198,10 +246,13 @@ Section Field.
 Variable wrf : Z -> kind -> value -> option bytes.
 Variable rdf : Z -> kind -> bytes -> option (value * bytes).
 Variable wff : kind -> value -> bool.
-Hypothesis wrf_starts : forall tag k x b, wrf tag k x = Some b -> exists r, b = be_enc 3 tag ++ r.
+Hypothesis wrf_starts : forall tag k x b, wrf tag k x = Some b -> exists r, b = be_enc 3 tag ++ tyc x :: r.
 (* element-level round trip (the induction hypothesis of the main theorem) *)
 Hypothesis elt_rt : forall tag k x b, tag_ok tag = true -> wff k x = true ->
                                      wrf tag k x = Some b -> forall r, rdf tag k (b ++ r) = Some (x, r).
+
+Lemma wrf_starts_w tag k x b : wrf tag k x = Some b -> exists r, b = be_enc 3 tag ++ r.
+Proof. intros H. destruct (wrf_starts _ _ _ _ H) as [r ->]. eauto. Qed.
 
 Lemma rd_many_wr tag k xs : forall bs after lfuel,
   tag_ok tag = true -> forallb (wff k) xs = true ->
@@ -216,7 +267,7 @@ Proof.
   - cbn [map] in Henc. apply opt_concat_cons_some in Henc as (b & r & Hb & Hr & ->).
     cbn [forallb] in Hwf. apply andb_prop in Hwf as [Hwx Hwf].
     destruct lfuel as [|lf]; [cbn in Hfuel; lia|]. cbn [rd_many].
-    destruct (wrf_starts _ _ _ _ Hb) as [r0 Hb0].
+    destruct (wrf_starts_w _ _ _ _ Hb) as [r0 Hb0].
     rewrite <- app_assoc.
     assert (Hnext : is_tag_next tag (b ++ r ++ after) = true).
     { rewrite Hb0, <- app_assoc, is_tag_next_tag by exact Ht. apply Z.eqb_refl. }
@@ -224,50 +275,108 @@ Proof.
     rewrite (IH r after lf Ht Hwf Hr Hafter); [reflexivity|cbn in Hfuel; lia].
 Qed.
 
+Lemma rd_counted_wr tag k xs : forall n bs after fuel,
+  tag_ok tag = true -> forallb (wff k) xs = true ->
+  opt_concat (map (wrf tag k) xs) = Some bs ->
+  Z.of_nat (List.length xs) = Z.max n 0 ->
+  (List.length xs < fuel)%nat ->
+  rd_counted (rdf tag k) fuel n (bs ++ after) = Some (xs, after).
+Proof.
+  induction xs as [|x xs IH]; intros n bs after fuel Ht Hwf Henc Hn Hfuel.
+  - cbn in Henc. injection Henc as <-. cbn [List.length] in Hn.
+    destruct fuel as [|f]; [cbn in Hfuel; lia|]. cbn [rd_counted app].
+    replace (n <=? 0) with true by lia. reflexivity.
+  - cbn [map] in Henc. apply opt_concat_cons_some in Henc as (b & r & Hb & Hr & ->).
+    cbn [forallb] in Hwf. apply andb_prop in Hwf as [Hwx Hwf]. cbn [List.length] in Hn, Hfuel.
+    destruct fuel as [|f]; [lia|]. cbn [rd_counted].
+    replace (n <=? 0) with false by lia.
+    rewrite <- app_assoc. rewrite (elt_rt tag k x b Ht Hwx Hb (r ++ after)).
+    rewrite (IH (n - 1) r after f Ht Hwf Hr); [reflexivity|lia|lia].
+Qed.
+
 Lemma enc_len_le tag k : forall xs bs0, opt_concat (map (wrf tag k) xs) = Some bs0 ->
   (List.length xs <= List.length bs0)%nat.
 Proof.
   induction xs as [|x xs IHx]; intros bs0 H0; [cbn; lia|].
   cbn [map] in H0. apply opt_concat_cons_some in H0 as (b & r & Hb & Hr & ->).
-  destruct (wrf_starts _ _ _ _ Hb) as [r0 ->]. specialize (IHx r Hr).
+  destruct (wrf_starts_w _ _ _ _ Hb) as [r0 ->]. specialize (IHx r Hr).
   rewrite !app_length, be_enc_length. cbn [List.length]. lia.
 Qed.
 
-Lemma rd_field_wr it fs bs after :
+Lemma rd_field_wr it cnt fs bs after :
   tag_ok (i_tag it) = true -> forallb (wff (i_kind it)) fs = true ->
+  count_ok it cnt (List.length fs) = true ->
   enc_field wrf (it, fs) = Some bs ->
-  is_tag_next (i_tag it) after = false ->
-  rd_field (rdf (i_tag it) (i_kind it)) it (bs ++ after) = Some (fs, after).
+  (peeks (i_mult it) = true -> is_tag_next (i_tag it) after = false) ->
+  rd_field (rdf (i_tag it) (i_kind it)) it cnt (bs ++ after) = Some (fs, after).
 Proof.
-  intros Ht Hwf Henc Hafter. unfold enc_field in Henc. cbn [fst snd] in Henc.
+  intros Ht Hwf Hcnt Henc Hafter. unfold enc_field in Henc. cbn [fst snd] in Henc.
   destruct (mult_ok (i_mult it) (List.length fs)) eqn:Hm; [|discriminate].
-  unfold rd_field. destruct (i_mult it) eqn:Em.
+  unfold rd_field. unfold count_ok in Hcnt. destruct (i_mult it) eqn:Em; cbn [peeks] in Hafter.
   - (* Req *)
     destruct fs as [|x [|y fs]]; cbn in Hm; try discriminate.
     cbn [map] in Henc. apply opt_concat_cons_some in Henc as (b & r & Hb & Hr & ->).
     cbn in Hr. injection Hr as <-. rewrite app_nil_r.
     cbn in Hwf. apply andb_prop in Hwf as [Hwx _].
-    destruct (wrf_starts _ _ _ _ Hb) as [r0 Hb0].
+    destruct (wrf_starts_w _ _ _ _ Hb) as [r0 Hb0].
     assert (Hnext : is_tag_next (i_tag it) (b ++ after) = true).
     { rewrite Hb0, <- app_assoc, is_tag_next_tag by exact Ht. apply Z.eqb_refl. }
     rewrite Hnext, (elt_rt _ _ x b Ht Hwx Hb after). reflexivity.
   - (* Opt *)
+    specialize (Hafter eq_refl).
     destruct fs as [|x [|y fs]]; cbn in Hm; try discriminate.
     + cbn in Henc. injection Henc as <-. cbn [app]. rewrite Hafter. reflexivity.
     + cbn [map] in Henc. apply opt_concat_cons_some in Henc as (b & r & Hb & Hr & ->).
       cbn in Hr. injection Hr as <-. rewrite app_nil_r.
       cbn in Hwf. apply andb_prop in Hwf as [Hwx _].
-      destruct (wrf_starts _ _ _ _ Hb) as [r0 Hb0].
+      destruct (wrf_starts_w _ _ _ _ Hb) as [r0 Hb0].
       assert (Hnext : is_tag_next (i_tag it) (b ++ after) = true).
       { rewrite Hb0, <- app_assoc, is_tag_next_tag by exact Ht. apply Z.eqb_refl. }
       rewrite Hnext, (elt_rt _ _ x b Ht Hwx Hb after). reflexivity.
   - (* Many *)
+    specialize (Hafter eq_refl).
     apply rd_many_wr; try assumption.
     pose proof (enc_len_le _ _ fs bs Henc). rewrite app_length. lia.
   - (* Many1 *)
+    specialize (Hafter eq_refl).
     rewrite (rd_many_wr (i_tag it) (i_kind it) fs bs after (S (List.length (bs ++ after))) Ht Hwf Henc Hafter).
     + destruct fs; [cbn in Hm; discriminate|reflexivity].
     + pose proof (enc_len_le _ _ fs bs Henc). rewrite app_length. lia.
+  - (* Counted *)
+    destruct cnt as [n|]; [|discriminate].
+    apply rd_counted_wr; try assumption; [lia|].
+    pose proof (enc_len_le _ _ fs bs Henc). rewrite app_length. lia.
+Qed.
+
+(* writer-side and reader-side dispatch agree on what was written *)
+Lemma resolve_agree_wr pre it fs it' b after :
+  item_ok E it = true -> resolve_w pre it fs = RItem it' -> enc_field wrf (it', fs) = Some b ->
+  resolve_r pre it (b ++ after) = RItem it'.
+Proof.
+  intros Hok Hw Henc. unfold resolve_w in Hw. unfold resolve_r.
+  destruct (i_by it) as [bsp|] eqn:Eby; [|exact Hw].
+  destruct (by_src bsp) eqn:Es; [cbn [key_w] in Hw; cbn [key_r]; exact Hw|].
+  destruct (next_type_req E it bsp Hok Eby Es) as [Hreq Hskip].
+  cbn [key_w] in Hw. cbn [key_r].
+  destruct fs as [|x fs'].
+  { unfold resolve_k in Hw. rewrite Hskip in Hw. discriminate. }
+  pose proof (resolve_k_item _ _ _ _ Hw) as (_ & Hm & _).
+  unfold enc_field in Henc. cbn [fst snd] in Henc. rewrite Hm, Hreq in Henc.
+  destruct fs' as [|y fs'']; [|cbn in Henc; discriminate].
+  cbn [mult_ok List.length Nat.eqb map] in Henc.
+  apply opt_concat_cons_some in Henc as (b1 & r1 & Hb1 & Hr1 & ->). cbn in Hr1. injection Hr1 as <-.
+  destruct (wrf_starts _ _ _ _ Hb1) as [r0 ->].
+  rewrite app_nil_r, <- app_assoc. cbn [app].
+  rewrite take4_tag_type, nth3_tag_type. exact Hw.
+Qed.
+
+Lemma resolve_skip_agree pre it bs : item_ok E it = true -> resolve_w pre it [] = RSkip -> resolve_r pre it bs = RSkip.
+Proof.
+  intros Hok Hw. unfold resolve_w in Hw. unfold resolve_r.
+  destruct (i_by it) as [bsp|] eqn:Eby; [|discriminate].
+  destruct (by_src bsp) eqn:Es; [cbn [key_w] in Hw; cbn [key_r]; exact Hw|].
+  destruct (next_type_req E it bsp Hok Eby Es) as [_ Hskip].
+  cbn [key_w] in Hw. unfold resolve_k in Hw. rewrite Hskip in Hw. discriminate.
 Qed.
 
 (* ---------------------------------------------------------------- reading back an item list *)
@@ -275,38 +384,48 @@ Qed.
 Lemma rd_items_wr items : forall pre fields body tail,
   tags_disjointb items = true ->
   (forall it, In it items -> item_ok E it = true) ->
-  wf_items wff pre items fields = true ->
+  wf_items E v wff pre items fields = true ->
   wr_items wrf pre items fields = Some body ->
-  (forall t, In t (List.concat (map tags_of_item items)) -> is_tag_next t tail = false) ->
-  rd_items rdf pre items (body ++ tail) = Some (fields, tail).
+  (forallb (fun it => negb (peeks (i_mult it))) items = true \/
+   forall t, In t (List.concat (map tags_of_item items)) -> is_tag_next t tail = false) ->
+  rd_items E v rdf pre items (body ++ tail) = Some (fields, tail).
 Proof.
   induction items as [|it items IH]; intros pre fields body tail Hdj Hok Hwf Henc Htail.
   - destruct fields; cbn in Henc; [|discriminate]. injection Henc as <-. reflexivity.
   - destruct fields as [|fs fields]; [cbn in Henc; discriminate|].
     cbn [wr_items] in Henc. cbn [wf_items] in Hwf. cbn [rd_items].
     cbn [tags_disjointb] in Hdj. apply andb_prop in Hdj as [Hdj1 Hdj].
-    cbn [map List.concat] in Htail.
     assert (Hok' : forall it', In it' items -> item_ok E it' = true) by (intros; apply Hok; right; assumption).
-    assert (Htail' : forall t, In t (List.concat (map tags_of_item items)) -> is_tag_next t tail = false)
-      by (intros; apply Htail; apply in_or_app; right; assumption).
-    destruct (resolve1 pre it) as [it'| |] eqn:Er; [| |discriminate].
+    assert (Htail' : forallb (fun it => negb (peeks (i_mult it))) items = true \/
+                     forall t, In t (List.concat (map tags_of_item items)) -> is_tag_next t tail = false).
+    { destruct Htail as [Hnp|Ht]; [left; cbn in Hnp; apply andb_prop in Hnp; tauto|right].
+      intros t Hin. apply Ht. cbn [map List.concat]. apply in_or_app; right; assumption. }
+    pose proof (Hok it (or_introl eq_refl)) as Hokit.
+    destruct (resolve_w pre it fs) as [it'| |] eqn:Er; [| |discriminate].
     + destruct (enc_field wrf (it', fs)) as [b|] eqn:Eb; [|discriminate].
       destruct (wr_items wrf (pre ++ [fs]) items fields) as [r|] eqn:Ew; [|discriminate]. injection Henc as <-.
-      apply andb_prop in Hwf as [Hwf1 Hwf].
-      destruct (resolve1_ok E pre it it' (Hok it (or_introl eq_refl)) Er) as [Htag _].
-      pose proof (resolve1_tag pre it it' Er) as Hin.
+      apply andb_prop in Hwf as [Hwf1 Hwf]. apply andb_prop in Hwf1 as [Hwf1 Hcnt].
+      destruct (resolve_w_ok E pre it fs it' Hokit Er) as [Htag Hmult].
+      pose proof (resolve_w_tag pre it fs it' Er) as Hin.
       rewrite <- app_assoc.
-      assert (Hafter : is_tag_next (i_tag it') (r ++ tail) = false).
-      { destruct (wr_items_start wrf items _ _ _ wrf_starts Ew) as [->|(t & r' & Hint & ->)].
-        - cbn [app]. apply Htail. apply in_or_app; left; exact Hin.
+      rewrite (resolve_agree_wr pre it fs it' b (r ++ tail) Hokit Er Eb).
+      assert (Hafter : peeks (i_mult it') = true -> is_tag_next (i_tag it') (r ++ tail) = false).
+      { intros Hpk. rewrite Hmult in Hpk.
+        destruct Htail as [Hnp|Ht].
+        { cbn in Hnp. apply andb_prop in Hnp as [Hnp _]. rewrite Hpk in Hnp. discriminate. }
+        destruct (wr_items_start wrf items _ _ _ wrf_starts_w Ew) as [->|(t & r' & Hint & ->)].
+        - cbn [app]. apply Ht. cbn [map List.concat]. apply in_or_app; left; exact Hin.
         - pose proof (tags_of_items_ok items t Hok' Hint) as Htt.
           rewrite <- app_assoc, is_tag_next_tag by exact Htt.
           apply Z.eqb_neq. intros Heq. subst t.
           rewrite forallb_forall in Hdj1. specialize (Hdj1 _ Hin). apply negb_true_iff in Hdj1.
           exact (memb_false_notin _ _ Hdj1 Hint). }
-      rewrite (rd_field_wr it' fs b (r ++ tail) Htag Hwf1 Eb Hafter).
+      assert (Hcnt' : count_ok it' (item_count E v pre it) (List.length fs) = true).
+      { unfold count_ok in *. rewrite Hmult. exact Hcnt. }
+      rewrite (rd_field_wr it' (item_count E v pre it) fs b (r ++ tail) Htag Hwf1 Hcnt' Eb Hafter).
       rewrite (IH (pre ++ [fs]) fields r tail Hdj Hok' Hwf Ew Htail'). reflexivity.
     + destruct fs; [|discriminate].
+      rewrite (resolve_skip_agree pre it (body ++ tail) Hokit Er).
       rewrite (IH (pre ++ [[]]) fields body tail Hdj Hok' Hwf Henc Htail'). reflexivity.
 Qed.
 
@@ -324,13 +443,16 @@ Qed.
 
 Lemma cls_facts c k : In v VERSIONS -> find_cls E c = Some k ->
   c_rd k = c_wr k /\ tags_disjointb (filter (active v) (c_rd k)) = true /\
-  (forall it, In it (filter (active v) (c_rd k)) -> item_ok E it = true).
+  (forall it, In it (filter (active v) (c_rd k)) -> item_ok E it = true) /\
+  (c_substream k = false -> forallb (fun it => negb (peeks (i_mult it))) (filter (active v) (c_rd k)) = true).
 Proof.
   intros Hv Ec. pose proof (cls_ok_of c k Ec) as Hk. unfold cls_ok in Hk.
-  apply andb_prop in Hk as [Hk Hd]. apply andb_prop in Hk as [Hrw Hio].
-  split; [apply items_eqb_eq; exact Hrw|]. split.
+  apply andb_prop in Hk as [Hk Hsub]. apply andb_prop in Hk as [Hk Hd]. apply andb_prop in Hk as [Hrw Hio].
+  split; [apply items_eqb_eq; exact Hrw|]. split; [|split].
   - rewrite forallb_forall in Hd. apply Hd. exact Hv.
   - intros it Hin. apply filter_In in Hin as [Hin _]. rewrite forallb_forall in Hio. apply Hio. exact Hin.
+  - intros Hs. rewrite Hs in Hsub. cbn in Hsub. rewrite forallb_forall in *.
+    intros it Hin. apply filter_In in Hin as [Hin _]. apply Hsub. exact Hin.
 Qed.
 
 Theorem roundtrip : In v VERSIONS ->
@@ -359,20 +481,24 @@ Proof.
     rewrite Hw in Hb'. injection Hb' as <-. cbn [ptype_of] in Hd. rewrite Hd. reflexivity.
   - (* structure *)
     destruct (find_cls E c) as [k|] eqn:Ec; [|discriminate].
-    destruct (cls_facts c k Hv Ec) as (Hrw & Hdj & Hio).
+    destruct (cls_facts c k Hv Ec) as (Hrw & Hdj & Hio & Hnp).
     destruct (wr_items (wr E v f) [] (filter (active v) (c_wr k)) fields) as [body|] eqn:Eb; [|discriminate].
     apply with_hdr_some in Hw as (h & Hh & ->).
     rewrite <- app_assoc.
     rewrite (dec_hdr_hdr tag STRUCT_CODE (zlen body) h (body ++ rest) Ht ltac:(unfold STRUCT_CODE; lia) Hh).
-    assert (Hn : Z.to_nat (Z.min (zlen body) (zlen (body ++ rest))) = List.length body).
-    { rewrite zlen_app. pose proof (zlen_nonneg rest). unfold zlen in *. lia. }
-    rewrite Hn. rewrite firstn_app, Nat.sub_diag, firstn_all. cbn [firstn]. rewrite app_nil_r.
-    rewrite skipn_app, Nat.sub_diag, skipn_all. cbn [skipn app].
     rewrite Hrw in *.
-    pose proof (rd_items_wr (wr E v f) (rd E v f) (wfv E v f) (fun tag k x b => wr_starts f tag k x b) IH
-                  (filter (active v) (c_wr k)) [] fields body [] Hdj Hio Hwf Eb
-                  (fun t _ => is_tag_next_nil t)) as Hitems.
-    rewrite app_nil_r in Hitems. rewrite Hitems. rewrite andb_false_r. reflexivity.
+    destruct (c_substream k) eqn:Esub.
+    + assert (Hn : Z.to_nat (Z.min (zlen body) (zlen (body ++ rest))) = List.length body).
+      { rewrite zlen_app. pose proof (zlen_nonneg rest). unfold zlen in *. lia. }
+      rewrite Hn. rewrite firstn_app, Nat.sub_diag, firstn_all. cbn [firstn]. rewrite app_nil_r.
+      rewrite skipn_app, Nat.sub_diag, skipn_all. cbn [skipn app].
+      pose proof (rd_items_wr (wr E v f) (rd E v f) (wfv E v f) (fun tag k x b => wr_starts f tag k x b) IH
+                    (filter (active v) (c_wr k)) [] fields body [] Hdj Hio Hwf Eb
+                    (or_intror (fun t _ => is_tag_next_nil t))) as Hitems.
+      rewrite app_nil_r in Hitems. rewrite Hitems. rewrite andb_false_r. reflexivity.
+    + rewrite (rd_items_wr (wr E v f) (rd E v f) (wfv E v f) (fun tag k x b => wr_starts f tag k x b) IH
+                    (filter (active v) (c_wr k)) [] fields body rest Hdj Hio Hwf Eb
+                    (or_introl (Hnp eq_refl))). reflexivity.
 Qed.
 
 Corollary reencode : In v VERSIONS ->
@@ -404,7 +530,7 @@ Lemma items_children (wrf : Z -> kind -> value -> option bytes) (wff : kind -> v
   forall pre fields body,
   (forall tag k x b, tag_ok tag = true -> wff k x = true -> wrf tag k x = Some b -> wf_item b) ->
   (forall it, In it items -> item_ok E it = true) ->
-  wf_items wff pre items fields = true ->
+  wf_items E v wff pre items fields = true ->
   wr_items wrf pre items fields = Some body ->
   exists children, body = List.concat children /\ Forall wf_item children.
 Proof.
@@ -412,11 +538,11 @@ Proof.
   - destruct fields; cbn in H; [|discriminate]. injection H as <-. exists []. split; [reflexivity|constructor].
   - destruct fields as [|fs fields]; [cbn in H; discriminate|]. cbn [wr_items] in H. cbn [wf_items] in Hall.
     assert (Hok' : forall it', In it' items -> item_ok E it' = true) by (intros; apply Hok; right; assumption).
-    destruct (resolve1 pre it) as [it'| |] eqn:Er; [| |discriminate].
+    destruct (resolve_w pre it fs) as [it'| |] eqn:Er; [| |discriminate].
     + destruct (enc_field wrf (it', fs)) as [b|] eqn:Eb; [|discriminate].
       destruct (wr_items wrf (pre ++ [fs]) items fields) as [r|] eqn:Ew; [|discriminate]. injection H as <-.
-      apply andb_prop in Hall as [Hall1 Hall].
-      destruct (resolve1_ok E pre it it' (Hok it (or_introl eq_refl)) Er) as [Htag _].
+      apply andb_prop in Hall as [Hall1 Hall]. apply andb_prop in Hall1 as [Hall1 _].
+      destruct (resolve_w_ok E pre it fs it' (Hok it (or_introl eq_refl)) Er) as [Htag _].
       unfold enc_field in Eb. cbn [fst snd] in Eb.
       destruct (mult_ok (i_mult it') (List.length fs)); [|discriminate].
       destruct (field_children wrf wff (i_tag it') (i_kind it') fs b) as (c1 & -> & H1);
@@ -441,7 +567,7 @@ Proof.
     apply (enc_prim_wf (enum_mem E e) tag (VEnum n) bs Ht); [|exact Hw].
     apply (enc_some_iff_wf (enum_mem E e) tag (VEnum n)); [exact I|exact Hwf|eauto].
   - destruct (find_cls E c) as [k|] eqn:Ec; [|discriminate].
-    destruct (cls_facts c k Hv Ec) as (Hrw & _ & Hio). rewrite Hrw in Hio.
+    destruct (cls_facts c k Hv Ec) as (Hrw & _ & Hio & _). rewrite Hrw in Hio.
     destruct (wr_items _ _ _ _) as [body|] eqn:Eb; [|discriminate].
     destruct (items_children (wr E v f) (wfv E v f) _ _ _ _ IH Hio Hwf Eb) as (children & -> & Hch).
     apply with_hdr_some in Hw as (h & Hh & ->). apply hdr_spec in Hh as [-> Hr].
@@ -452,12 +578,34 @@ Qed.
 
 (* ---------------------------------------------------------------- decode-encode-decode for any accepted byte string *)
 
+(* what the reader saw as the type byte is the type code of the value it produced *)
+Definition type_byte_is (bs : bytes) (ty : Z) : Prop :=
+  exists t4 r4, take_exact 4 bs = Some (t4, r4) /\ nth 3 t4 0 = ty.
+
+Lemma dec_hdr_type_byte tag ty bs len r : 0 <= ty < 256 ->
+  dec_hdr tag ty bs = Some (len, r) -> type_byte_is bs ty.
+Proof.
+  intros Hty H. unfold dec_hdr in H.
+  destruct (take_exact 3 bs) as [[t r1]|] eqn:E1; [|discriminate].
+  destruct (negb (be_dec t =? tag)); [discriminate|].
+  destruct (take_exact 1 r1) as [[y r2]|] eqn:E2; [|discriminate].
+  destruct (negb (be_dec y =? ty)) eqn:Ey; [discriminate|].
+  apply take_exact_spec in E1 as [-> L1]. apply take_exact_spec in E2 as [-> L2].
+  apply negb_false_iff, Z.eqb_eq in Ey.
+  destruct y as [|b [|b' y']]; unfold zlen in L2; cbn in L2; try lia.
+  exists (t ++ [b]), r2. split.
+  - replace (t ++ [b] ++ r2) with ((t ++ [b]) ++ r2) by (rewrite <- app_assoc; reflexivity).
+    apply take_exact_app'. rewrite zlen_app. unfold zlen in *. cbn. lia.
+  - rewrite app_nth2; unfold zlen in L1; [|lia].
+    replace (3 - List.length t)%nat with 0%nat by lia. cbn. unfold be_dec in Ey. cbn in Ey. lia.
+Qed.
+
 Definition SoundAt (rdf : Z -> kind -> bytes -> option (value * bytes))
                    (wrf : Z -> kind -> value -> option bytes) (wff : kind -> value -> bool) : Prop :=
   forall tag k bs x rest, tag_ok tag = true -> bytes_ok bs = true -> zlen bs < TWO31 ->
     rdf tag k bs = Some (x, rest) ->
     exists used bs', bs = used ++ rest /\ 8 <= zlen used /\ wff k x = true /\
-                     wrf tag k x = Some bs' /\ zlen bs' <= 2 * zlen used.
+                     wrf tag k x = Some bs' /\ zlen bs' <= 2 * zlen used /\ type_byte_is bs (tyc x).
 
 Section Items.
 Variable rdf : Z -> kind -> bytes -> option (value * bytes).
@@ -476,7 +624,7 @@ Proof.
   - destruct (rdf tag k bs) as [[x r]|] eqn:E1; [|discriminate].
     destruct (rd_many (rdf tag k) tag lf r) as [[xs' r']|] eqn:E2; [|discriminate].
     injection H as <- <-.
-    destruct (Hsound tag k bs x r Ht Hok Hs E1) as (u1 & b1 & -> & Hu1 & Hw1 & Hb1 & Hl1).
+    destruct (Hsound tag k bs x r Ht Hok Hs E1) as (u1 & b1 & -> & Hu1 & Hw1 & Hb1 & Hl1 & _).
     apply bytes_ok_app in Hok as [_ Hokr]. rewrite zlen_app in Hs. pose proof (zlen_nonneg u1).
     destruct (IH r xs' r' Hokr ltac:(lia) E2) as (u2 & b2 & -> & Hw2 & Hb2 & Hl2).
     exists (u1 ++ u2), (b1 ++ b2). rewrite <- app_assoc. split; [reflexivity|].
@@ -485,53 +633,115 @@ Proof.
   - injection H as <- <-. exists [], []. cbn. repeat split; try reflexivity; try (unfold zlen; cbn; lia).
 Qed.
 
-Lemma rd_field_sound it bs fs rest : tag_ok (i_tag it) = true ->
+Lemma rd_counted_sound tag k : tag_ok tag = true -> forall fuel n bs xs rest,
   bytes_ok bs = true -> zlen bs < TWO31 ->
-  rd_field (rdf (i_tag it) (i_kind it)) it bs = Some (fs, rest) ->
-  exists used bs', bs = used ++ rest /\ forallb (wff (i_kind it)) fs = true /\
-                   enc_field wrf (it, fs) = Some bs' /\ zlen bs' <= 2 * zlen used.
+  rd_counted (rdf tag k) fuel n bs = Some (xs, rest) ->
+  exists used bs', bs = used ++ rest /\ forallb (wff k) xs = true /\
+                   opt_concat (map (wrf tag k) xs) = Some bs' /\ zlen bs' <= 2 * zlen used /\
+                   Z.of_nat (List.length xs) = Z.max n 0.
 Proof.
-  intros Ht Hok Hs H. unfold rd_field in H. unfold enc_field. cbn [fst snd].
+  intros Ht. induction fuel as [|f IH]; intros n bs xs rest Hok Hs H.
+  - cbn [rd_counted] in H. destruct (n <=? 0) eqn:En; [|discriminate]. injection H as <- <-.
+    exists [], []. cbn. repeat split; try reflexivity; try (unfold zlen; cbn; lia); lia.
+  - cbn [rd_counted] in H. destruct (n <=? 0) eqn:En.
+    + injection H as <- <-. exists [], []. cbn. repeat split; try reflexivity; try (unfold zlen; cbn; lia); lia.
+    + destruct (rdf tag k bs) as [[x r]|] eqn:E1; [|discriminate].
+      destruct (rd_counted (rdf tag k) f (n - 1) r) as [[xs' r']|] eqn:E2; [|discriminate].
+      injection H as <- <-.
+      destruct (Hsound tag k bs x r Ht Hok Hs E1) as (u1 & b1 & -> & Hu1 & Hw1 & Hb1 & Hl1 & _).
+      apply bytes_ok_app in Hok as [_ Hokr]. rewrite zlen_app in Hs. pose proof (zlen_nonneg u1).
+      destruct (IH (n - 1) r xs' r' Hokr ltac:(lia) E2) as (u2 & b2 & -> & Hw2 & Hb2 & Hl2 & Hn2).
+      exists (u1 ++ u2), (b1 ++ b2). rewrite <- app_assoc. split; [reflexivity|].
+      split; [cbn; rewrite Hw1, Hw2; reflexivity|]. split; [cbn [map opt_concat]; rewrite Hb1, Hb2; reflexivity|].
+      split; [rewrite !zlen_app; lia|]. cbn [List.length]. lia.
+Qed.
+
+Lemma rd_field_sound it cnt bs fs rest : tag_ok (i_tag it) = true ->
+  bytes_ok bs = true -> zlen bs < TWO31 ->
+  rd_field (rdf (i_tag it) (i_kind it)) it cnt bs = Some (fs, rest) ->
+  exists used bs', bs = used ++ rest /\ forallb (wff (i_kind it)) fs = true /\
+                   enc_field wrf (it, fs) = Some bs' /\ zlen bs' <= 2 * zlen used /\
+                   count_ok it cnt (List.length fs) = true /\
+                   (i_mult it = Req -> exists x, fs = [x] /\ type_byte_is bs (tyc x)).
+Proof.
+  intros Ht Hok Hs H. unfold rd_field in H. unfold enc_field, count_ok. cbn [fst snd].
   destruct (i_mult it) eqn:Em.
   - destruct (is_tag_next (i_tag it) bs); [|discriminate].
     destruct (rdf (i_tag it) (i_kind it) bs) as [[x r]|] eqn:E1; [|discriminate]. injection H as <- <-.
-    destruct (Hsound _ _ bs x r Ht Hok Hs E1) as (u1 & b1 & -> & Hu1 & Hw1 & Hb1 & Hl1).
-    exists u1, b1. cbn. rewrite Hw1, Hb1, app_nil_r. repeat split; try reflexivity; assumption.
+    destruct (Hsound _ _ bs x r Ht Hok Hs E1) as (u1 & b1 & -> & Hu1 & Hw1 & Hb1 & Hl1 & Hty).
+    exists u1, b1. cbn. rewrite Hw1, Hb1, app_nil_r. repeat split; try reflexivity; try assumption.
+    intros _. exists x. split; [reflexivity|exact Hty].
   - destruct (is_tag_next (i_tag it) bs).
     + destruct (rdf (i_tag it) (i_kind it) bs) as [[x r]|] eqn:E1; [|discriminate]. injection H as <- <-.
-      destruct (Hsound _ _ bs x r Ht Hok Hs E1) as (u1 & b1 & -> & Hu1 & Hw1 & Hb1 & Hl1).
-      exists u1, b1. cbn. rewrite Hw1, Hb1, app_nil_r. repeat split; try reflexivity; assumption.
-    + injection H as <- <-. exists [], []. cbn. repeat split; try reflexivity; try (unfold zlen; cbn; lia).
-  - cbn [mult_ok]. apply (rd_many_sound (i_tag it) (i_kind it) Ht _ bs fs rest Hok Hs H).
+      destruct (Hsound _ _ bs x r Ht Hok Hs E1) as (u1 & b1 & -> & Hu1 & Hw1 & Hb1 & Hl1 & _).
+      exists u1, b1. cbn. rewrite Hw1, Hb1, app_nil_r. repeat split; try reflexivity; try assumption. discriminate.
+    + injection H as <- <-. exists [], []. cbn. repeat split; try reflexivity; try (unfold zlen; cbn; lia). discriminate.
+  - cbn [mult_ok].
+    destruct (rd_many_sound (i_tag it) (i_kind it) Ht _ bs fs rest Hok Hs H) as (u & b & -> & Hw & Hb & Hl).
+    exists u, b. repeat split; try assumption. discriminate.
   - destruct (rd_many (rdf (i_tag it) (i_kind it)) (i_tag it) (S (List.length bs)) bs) as [[xs r]|] eqn:Em1; [|discriminate].
     destruct xs as [|x xs]; [discriminate|]. injection H as <- <-.
     destruct (rd_many_sound (i_tag it) (i_kind it) Ht _ bs (x :: xs) r Hok Hs Em1) as (u & b & -> & Hw & Hb & Hl).
-    exists u, b. cbn [mult_ok List.length Nat.leb]. repeat split; assumption.
+    exists u, b. cbn [mult_ok List.length Nat.leb]. repeat split; try assumption. discriminate.
+  - destruct cnt as [n|]; [|discriminate].
+    destruct (rd_counted_sound (i_tag it) (i_kind it) Ht _ n bs fs rest Hok Hs H) as (u & b & -> & Hw & Hb & Hl & Hn).
+    exists u, b. cbn [mult_ok]. repeat split; try assumption; [lia|discriminate].
+Qed.
+
+Lemma resolve_agree_rd pre it bs it' f :
+  item_ok E it = true -> resolve_r pre it bs = RItem it' ->
+  (i_mult it' = Req -> exists x, f = [x] /\ type_byte_is bs (tyc x)) ->
+  resolve_w pre it f = RItem it'.
+Proof.
+  intros Hok Hr Hreq. unfold resolve_r in Hr. unfold resolve_w.
+  destruct (i_by it) as [bsp|] eqn:Eby; [|exact Hr].
+  destruct (by_src bsp) eqn:Es; [cbn [key_r] in Hr; cbn [key_w]; exact Hr|].
+  destruct (next_type_req E it bsp Hok Eby Es) as [Hm Hskip].
+  pose proof (resolve_k_item _ _ _ _ Hr) as (_ & Hm' & _).
+  destruct (Hreq ltac:(congruence)) as (x & -> & t4 & r4 & Ht4 & Hn).
+  cbn [key_r] in Hr. cbn [key_w]. rewrite Ht4 in Hr. rewrite Hn in Hr. exact Hr.
+Qed.
+
+Lemma resolve_skip_agree_rd pre it bs : item_ok E it = true -> resolve_r pre it bs = RSkip -> resolve_w pre it [] = RSkip.
+Proof.
+  intros Hok Hr. unfold resolve_r in Hr. unfold resolve_w.
+  destruct (i_by it) as [bsp|] eqn:Eby; [|discriminate].
+  destruct (by_src bsp) eqn:Es; [cbn [key_r] in Hr; cbn [key_w]; exact Hr|].
+  destruct (next_type_req E it bsp Hok Eby Es) as [_ Hskip].
+  cbn [key_r] in Hr. unfold resolve_k in Hr. rewrite Hskip in Hr.
+  destruct (take_exact 4 bs) as [[t ?]|]; [|discriminate].
+  destruct (find _ _) as [[? [? ?]]|]; discriminate.
 Qed.
 
 Lemma rd_items_sound items : (forall it, In it items -> item_ok E it = true) ->
   forall pre bs fields rest, bytes_ok bs = true -> zlen bs < TWO31 ->
-  rd_items rdf pre items bs = Some (fields, rest) ->
-  exists used body, bs = used ++ rest /\ wf_items wff pre items fields = true /\
+  rd_items E v rdf pre items bs = Some (fields, rest) ->
+  exists used body, bs = used ++ rest /\ wf_items E v wff pre items fields = true /\
      wr_items wrf pre items fields = Some body /\ zlen body <= 2 * zlen used.
 Proof.
   induction items as [|it items IH]; intros Hok pre bs fields rest Hbs Hs H.
   - cbn in H. injection H as <- <-. exists [], []. cbn. repeat split; try reflexivity; try (unfold zlen; cbn; lia).
   - cbn [rd_items] in H.
     assert (Hok' : forall it', In it' items -> item_ok E it' = true) by (intros; apply Hok; right; assumption).
-    destruct (resolve1 pre it) as [it'| |] eqn:Er; [| |discriminate].
-    + destruct (rd_field (rdf (i_tag it') (i_kind it')) it' bs) as [[f r]|] eqn:E1; [|discriminate].
-      destruct (rd_items rdf (pre ++ [f]) items r) as [[fs r']|] eqn:E2; [|discriminate]. injection H as <- <-.
-      destruct (resolve1_ok E pre it it' (Hok it (or_introl eq_refl)) Er) as [Htag _].
-      destruct (rd_field_sound it' bs f r Htag Hbs Hs E1) as (u1 & b1 & -> & Hw1 & Hb1 & Hl1).
+    pose proof (Hok it (or_introl eq_refl)) as Hokit.
+    destruct (resolve_r pre it bs) as [it'| |] eqn:Er; [| |discriminate].
+    + destruct (rd_field (rdf (i_tag it') (i_kind it')) it' (item_count E v pre it) bs) as [[f r]|] eqn:E1; [|discriminate].
+      destruct (rd_items E v rdf (pre ++ [f]) items r) as [[fs r']|] eqn:E2; [|discriminate]. injection H as <- <-.
+      destruct (resolve_r_ok E pre it bs it' Hokit Er) as [Htag Hmult].
+      destruct (rd_field_sound it' _ bs f r Htag Hbs Hs E1) as (u1 & b1 & Hu & Hw1 & Hb1 & Hl1 & Hc1 & Hreq).
+      pose proof (resolve_agree_rd pre it bs it' f Hokit Er Hreq) as Hrw.
+      subst bs.
       apply bytes_ok_app in Hbs as [_ Hokr]. rewrite zlen_app in Hs. pose proof (zlen_nonneg u1).
       destruct (IH Hok' (pre ++ [f]) r fs r' Hokr ltac:(lia) E2) as (u2 & b2 & -> & Hw2 & Hb2 & Hl2).
       exists (u1 ++ u2), (b1 ++ b2). rewrite <- app_assoc. split; [reflexivity|].
-      cbn [wf_items wr_items]. rewrite Er, Hw1, Hw2, Hb1, Hb2. repeat split; try reflexivity.
-      rewrite !zlen_app. lia.
-    + destruct (rd_items rdf (pre ++ [[]]) items bs) as [[fs r']|] eqn:E2; [|discriminate]. injection H as <- <-.
+      cbn [wf_items wr_items]. rewrite Hrw, Hw1, Hw2, Hb1, Hb2.
+      assert (Hc : count_ok it (item_count E v pre it) (List.length f) = true).
+      { unfold count_ok in *. rewrite <- Hmult. exact Hc1. }
+      rewrite Hc. repeat split; try reflexivity. rewrite !zlen_app. lia.
+    + destruct (rd_items E v rdf (pre ++ [[]]) items bs) as [[fs r']|] eqn:E2; [|discriminate]. injection H as <- <-.
       destruct (IH Hok' (pre ++ [[]]) bs fs r' Hbs Hs E2) as (u2 & b2 & -> & Hw2 & Hb2 & Hl2).
-      exists u2, b2. cbn [wf_items wr_items]. rewrite Er. repeat split; assumption.
+      exists u2, b2. cbn [wf_items wr_items]. rewrite (resolve_skip_agree_rd pre it _ Hokit Er).
+      repeat split; assumption.
 Qed.
 End Items.
 
@@ -542,50 +752,74 @@ Proof.
   destruct k as [t|e|c].
   - destruct (ptype_eqb t PEnum) eqn:Ene; [discriminate|].
     destruct (dec_prim (fun _ => false) t tag bs) as [[p r]|] eqn:Ed; [|discriminate]. injection H as <- <-. cbn [wr wfv].
+    assert (Htb : type_byte_is bs (type_code t)).
+    { unfold dec_prim in Ed. destruct (dec_hdr tag (type_code t) bs) as [[len r0]|] eqn:Eh; [|discriminate].
+      eapply dec_hdr_type_byte; [|exact Eh]. destruct t; cbn; lia. }
     destruct (dec_sound (fun _ => false) t tag bs p r Ht Hok Hs Ed) as (used & bs' & -> & Hu & Henc & Hl & Hwf & Hty).
     exists used, bs'. split; [reflexivity|]. split; [exact Hu|]. subst t.
     split.
     + destruct p; try reflexivity. cbn [wf_prim] in Hwf. apply andb_prop in Hwf as [Hb _]. exact Hb.
     + replace (ptype_eqb (ptype_of p) (ptype_of p)) with true by (symmetry; apply ptype_eqb_eq; reflexivity).
-      rewrite Ene. cbn [andb negb]. split; [exact Henc|lia].
+      rewrite Ene. cbn [andb negb]. split; [exact Henc|]. split; [lia|exact Htb].
   - destruct (dec_prim (enum_mem E e) PEnum tag bs) as [[p r]|] eqn:Ed; [|discriminate]. injection H as <- <-. cbn [wr wfv].
+    assert (Htb : type_byte_is bs (type_code PEnum)).
+    { unfold dec_prim in Ed. destruct (dec_hdr tag (type_code PEnum) bs) as [[len r0]|] eqn:Eh; [|discriminate].
+      eapply dec_hdr_type_byte; [|exact Eh]. cbn; lia. }
     destruct (dec_sound (enum_mem E e) PEnum tag bs p r Ht Hok Hs Ed) as (used & bs' & -> & Hu & Henc & Hl & Hwf & Hty).
     exists used, bs'. split; [reflexivity|]. split; [exact Hu|].
     destruct p; try discriminate. cbn [wf_prim] in Hwf. apply andb_prop in Hwf as [_ Hm].
-    split; [exact Hm|]. split; [exact Henc|lia].
+    split; [exact Hm|]. split; [exact Henc|]. split; [lia|exact Htb].
   - destruct (find_cls E c) as [k|] eqn:Ec; [|discriminate].
-    destruct (cls_facts c k Hv Ec) as (Hrw & _ & Hio).
+    destruct (cls_facts c k Hv Ec) as (Hrw & _ & Hio & _).
     destruct (dec_hdr tag STRUCT_CODE bs) as [[len r]|] eqn:Eh; [|discriminate].
+    pose proof (dec_hdr_type_byte tag STRUCT_CODE bs len r ltac:(unfold STRUCT_CODE; lia) Eh) as Htb.
     destruct (dec_hdr_spec _ _ _ _ _ Eh Hok) as (h & -> & Lh & Hlen & Hr).
-    set (n := Z.to_nat (Z.min len (zlen r))) in *.
-    destruct (rd_items (rd E v f) [] (filter (active v) (c_rd k)) (firstn n r)) as [[fields leftover]|] eqn:Ei; [|discriminate].
-    destruct (c_oversize_check k && negb (Nat.eqb (List.length leftover) 0)); [discriminate|]. injection H as <- <-.
-    cbn [wr wfv]. rewrite Ec.
-    assert (Hsplit : r = firstn n r ++ skipn n r) by (symmetry; apply firstn_skipn).
-    assert (Hoksub : bytes_ok (firstn n r) = true) by (rewrite Hsplit in Hr; apply bytes_ok_app in Hr; tauto).
-    rewrite zlen_app in Hs.
-    assert (Hsub_le : zlen (firstn n r) <= zlen r).
-    { rewrite Hsplit at 2. rewrite zlen_app. pose proof (zlen_nonneg (skipn n r)). lia. }
-    pose proof (zlen_nonneg r).
-    destruct (rd_items_sound (rd E v f) (wr E v f) (wfv E v f) IH (filter (active v) (c_rd k)) Hio [] (firstn n r) fields leftover
-                Hoksub ltac:(lia) Ei) as (usedsub & body & Hsubeq & Hwff & Hbody & Hlb).
-    assert (Hus : zlen usedsub <= zlen (firstn n r)).
-    { rewrite Hsubeq, zlen_app. pose proof (zlen_nonneg leftover). lia. }
-    rewrite Hrw in *.
-    exists (h ++ firstn n r).
-    assert (Hhdr : exists hb, hdr tag STRUCT_CODE (zlen body) = Some hb).
-    { apply hdr_total. pose proof (zlen_nonneg body). unfold TWO31, TWO32 in *. lia. }
-    destruct Hhdr as [hb Hhb].
-    exists (hb ++ body). split; [rewrite <- app_assoc; f_equal; exact Hsplit|].
-    split; [rewrite zlen_app; pose proof (zlen_nonneg (firstn n r)); lia|].
-    split; [exact Hwff|].
-    rewrite Hbody. unfold with_hdr. rewrite Hhb.
-    split; [reflexivity|].
-    assert (zlen hb = 8).
-    { unfold hdr in Hhb. destruct ((0 <=? zlen body) && (zlen body <? TWO32)); [|discriminate].
-      assert (hb = be_enc 3 tag ++ [STRUCT_CODE] ++ be_enc 4 (zlen body)) by congruence. subst hb.
-      rewrite !zlen_app, !zlen_be_enc. unfold zlen. cbn. lia. }
-    rewrite !zlen_app. lia.
+    rewrite zlen_app in Hs. pose proof (zlen_nonneg r).
+    assert (Hmk : forall (sub : bytes) (fields : list (list value)) (rest0 body usedsub : bytes),
+               zlen usedsub <= zlen sub -> zlen sub <= zlen r -> zlen body <= 2 * zlen usedsub ->
+               wf_items E v (wfv E v f) [] (filter (active v) (c_rd k)) fields = true ->
+               wr_items (wr E v f) [] (filter (active v) (c_rd k)) fields = Some body ->
+               h ++ r = (h ++ sub) ++ rest0 ->
+               exists used bs', h ++ r = used ++ rest0 /\ 8 <= zlen used /\
+                 wfv E v (S f) (KStruct c) (VS fields) = true /\
+                 wr E v (S f) tag (KStruct c) (VS fields) = Some bs' /\ zlen bs' <= 2 * zlen used /\
+                 type_byte_is (h ++ r) (tyc (VS fields))).
+    { intros sub fields rest0 body usedsub Hus Hsub Hlb Hwff Hbody Heq.
+      exists (h ++ sub).
+      assert (Hhdr : exists hb, hdr tag STRUCT_CODE (zlen body) = Some hb).
+      { apply hdr_total. pose proof (zlen_nonneg body). unfold TWO31, TWO32 in *. lia. }
+      destruct Hhdr as [hb Hhb].
+      exists (hb ++ body). split; [exact Heq|].
+      split; [rewrite zlen_app; pose proof (zlen_nonneg sub); lia|].
+      cbn [wr wfv]. rewrite Ec. rewrite <- Hrw.
+      split; [exact Hwff|]. rewrite Hbody. unfold with_hdr. rewrite Hhb.
+      split; [reflexivity|].
+      assert (zlen hb = 8).
+      { unfold hdr in Hhb. destruct ((0 <=? zlen body) && (zlen body <? TWO32)); [|discriminate].
+        assert (hb = be_enc 3 tag ++ [STRUCT_CODE] ++ be_enc 4 (zlen body)) by congruence. subst hb.
+        rewrite !zlen_app, !zlen_be_enc. unfold zlen. cbn. lia. }
+      split; [rewrite !zlen_app; lia|exact Htb]. }
+    destruct (c_substream k) eqn:Esub.
+    + set (n := Z.to_nat (Z.min len (zlen r))) in *.
+      destruct (rd_items E v (rd E v f) [] (filter (active v) (c_rd k)) (firstn n r)) as [[fields leftover]|] eqn:Ei; [|discriminate].
+      destruct (c_oversize_check k && negb (Nat.eqb (List.length leftover) 0)); [discriminate|]. injection H as <- <-.
+      assert (Hsplit : r = firstn n r ++ skipn n r) by (symmetry; apply firstn_skipn).
+      assert (Hoksub : bytes_ok (firstn n r) = true) by (rewrite Hsplit in Hr; apply bytes_ok_app in Hr; tauto).
+      assert (Hsub_le : zlen (firstn n r) <= zlen r).
+      { rewrite Hsplit at 2. rewrite zlen_app. pose proof (zlen_nonneg (skipn n r)). lia. }
+      destruct (rd_items_sound (rd E v f) (wr E v f) (wfv E v f) IH (filter (active v) (c_rd k)) Hio [] (firstn n r) fields leftover
+                  Hoksub ltac:(lia) Ei) as (usedsub & body & Hsubeq & Hwff & Hbody & Hlb).
+      assert (Hus : zlen usedsub <= zlen (firstn n r)).
+      { rewrite Hsubeq, zlen_app. pose proof (zlen_nonneg leftover). lia. }
+      apply (Hmk (firstn n r) fields (skipn n r) body usedsub Hus Hsub_le Hlb Hwff Hbody).
+      rewrite <- app_assoc. f_equal. exact Hsplit.
+    + destruct (rd_items E v (rd E v f) [] (filter (active v) (c_rd k)) r) as [[fields rest0]|] eqn:Ei; [|discriminate].
+      injection H as <- <-.
+      destruct (rd_items_sound (rd E v f) (wr E v f) (wfv E v f) IH (filter (active v) (c_rd k)) Hio [] r fields rest0
+                  Hr ltac:(lia) Ei) as (usedsub & body & Hsubeq & Hwff & Hbody & Hlb).
+      apply (Hmk usedsub fields rest0 body usedsub ltac:(lia)
+                 ltac:(rewrite Hsubeq, zlen_app; pose proof (zlen_nonneg rest0); lia) Hlb Hwff Hbody).
+      rewrite <- app_assoc. f_equal. exact Hsubeq.
 Qed.
 
 (* the statement the property asks for: for any byte string the decoder accepts,
